@@ -62,6 +62,11 @@ struct H4 {
 }
 
 pub fn check_c07(input: &str, stats: &mut Stats) {
+    if !crate::events::terminates(input) {
+        stats.cnt("skipped_parse_does_not_terminate", 1);
+        stats.eval(None);
+        return;
+    }
     let h4: Rc<RefCell<H4>> = Rc::new(RefCell::new(H4::default()));
     let h4c = h4.clone();
     verif::set_sink(Box::new(move |ev| {
@@ -265,6 +270,11 @@ fn hash_of<T: Hash>(t: &T) -> u64 {
 }
 
 pub fn check_c19(input: &str, stats: &mut Stats, rng: &mut Rng) {
+    if !crate::events::terminates(input) {
+        stats.cnt("skipped_parse_does_not_terminate", 1);
+        stats.eval(None);
+        return;
+    }
     type R = Result<Vec<CN>, SErr>;
     let a: Result<R, String> = catch(|| Yaml::load_from_str(input).map(|d| d.iter().map(cn_yaml).collect()).map_err(|e| serr(&e)));
     let b: Result<R, String> = catch(|| YamlOwned::load_from_str(input).map(|d| d.iter().map(cn_owned).collect()).map_err(|e| serr(&e)));
